@@ -36,6 +36,15 @@ CLAIMS = {
                 text="Same pipeline harness: the output equals the source outside the applied edit ranges for every source/patch "
                      "configuration in the bound; with nothing applied the output is the source and fix_string reports no change.",
                 note="Text is opaque (RopeStr): equality means equal for every content of the base texts. Encoding layer: see evidence."),
+    "C29": dict(design_ref="§3 C29", technique="solver-based: z3 Fixedpoint (Datalog) reachability over the live grammar object graph of "
+                "every dialect + z3 regex-inclusion query for lexer totality", engine="z3-direct",
+                text="All 28 bundled dialects are loaded and expanded; every grammar element reachable from the root (elements, Ref targets, "
+                     "exclude/terminators, delimiters, bracket-pair refs) is emitted as Datalog facts and z3 decides whether an unresolved "
+                     "reference is reachable (finite, exhaustive). Lexer totality: for each dialect's live whitespace/newline/last-resort "
+                     "patterns z3 shows no non-empty string escapes all three. 170 known dangling refs (finding F1) are listed per dialect; "
+                     "any other dangling ref is a violation, replayed by dialect.ref(name).",
+                note="The graph walker (models/grammar_graph.py) is trusted to enumerate element attributes; regex translation validated "
+                     "against `re`."),
     "C30": dict(design_ref="§3 C10/C11/C30", technique=SYM,
                 text="Same pipeline harness: the slice buffer tiles the source, every slice is raw text or exactly one distinct edit, "
                      "applied edits are pairwise disjoint, a conflicting edit is absent entirely; for all positions/lengths/texts "
@@ -67,5 +76,5 @@ NOT_APPLICABLE = {
     "C17": "fixpoint of the whole rule set over arbitrary SQL; not encodable",
 }
 for _p in ["C03", "C04", "C05", "C06", "C07", "C08", "C09", "C15", "C18", "C19", "C20", "C21", "C22",
-           "C24", "C25", "C26", "C27", "C28", "C29", "C32", "C34"]:
+           "C24", "C25", "C26", "C27", "C28", "C32", "C34"]:
     NOT_APPLICABLE.setdefault(_p, "check not built yet (planned, see DESIGN.md §3); not claimed until its harness is committed")
